@@ -69,11 +69,13 @@ RECURSIVE Strip(_,_)
 Strip(t, ncg) == IF t.op \in {"opt", "atom"} \/ (t.op = "cat" /\ Len(t.kids) = 1) \/ (ncg /\ t.op = "grp" /\ t.nm = "")
                  THEN Strip(t.kids[1], ncg) ELSE t
 
-\* the C01 fragment: every quantifier operand is non-nullable and is not (reducible to) a quantified item
+\* the C01 fragment: no quantifier operand is (reducible to) a quantified item - the reducer multiplies directly nested
+\* quantifiers, which keeps the language but not the priority order.  Nullable operands are inside the fragment: the
+\* engine's empty-iteration rule is part of RegexSem (loop frames).
 RECURSIVE InFragment(_,_)
 InFragment(t, ncg) ==
   /\ \A j \in 1..Len(t.kids) : InFragment(t.kids[j], ncg)
-  /\ t.op = "rep" => ~Nullable(t.kids[1]) /\ Strip(t.kids[1], ncg).op # "rep"
+  /\ t.op = "rep" => Strip(t.kids[1], ncg).op # "rep"
 
 \* ---------------------------------------------------------------- indexed-sequence combinators
 Map1(f(_), A)       == [i \in 1..Len(A) |-> f(A[i])]
